@@ -1251,6 +1251,12 @@ where
                 events.push(GenericEvent::NotifyPacketIdReleased(packet_id));
                 return false; // Remove from store
             }
+            // A retransmitted exchange is still in flight: count it against Receive Maximum
+            if let Some(max) = self.publish_send_max {
+                if self.publish_send_count < max {
+                    self.publish_send_count += 1;
+                }
+            }
             events.push(GenericEvent::RequestSendPacket {
                 packet: packet.clone().into(),
                 release_packet_id_if_send_error: None,
@@ -3078,7 +3084,7 @@ where
                         self.pid_man.release_id(packet_id);
                         events.push(GenericEvent::NotifyPacketIdReleased(packet_id));
                     }
-                    if self.publish_send_max.is_some() {
+                    if self.publish_send_max.is_some() && self.publish_send_count > 0 {
                         self.publish_send_count -= 1;
                     }
                     events.extend(self.refresh_pingreq_recv());
@@ -3152,7 +3158,7 @@ where
                             self.pid_man.release_id(packet_id);
                             events.push(GenericEvent::NotifyPacketIdReleased(packet_id));
                         }
-                        if self.publish_send_max.is_some() {
+                        if self.publish_send_max.is_some() && self.publish_send_count > 0 {
                             self.publish_send_count -= 1;
                         }
                     }
@@ -3282,7 +3288,7 @@ where
                         self.pid_man.release_id(packet_id);
                         events.push(GenericEvent::NotifyPacketIdReleased(packet_id));
                     }
-                    if self.publish_send_max.is_some() {
+                    if self.publish_send_max.is_some() && self.publish_send_count > 0 {
                         self.publish_send_count -= 1;
                     }
                     events.extend(self.refresh_pingreq_recv());
